@@ -256,6 +256,7 @@ def run(pid, tier, replay=None):
                 rt = RandomTree(w3, rec, rng, nkeys=3, p_mut=0.45 if pid == "C09" else (0.3 if ibd else 0.15))
                 lab = []
                 held = []
+                pend_desc = []
                 if ibd and i % 2 == 1:
                     # scripted opening: a requested block is applied unvalidated, a transaction spends an output it created, then a
                     # broadcast block that passes the by-itself rules but not the in-state rules rolls the head back
@@ -289,6 +290,17 @@ def run(pid, tier, replay=None):
                             run_.deliver_tx(rng.choice(openp), rng.choice(held), label="resubmitted")
                             lab.append(["tx", "resubmitted"])
                         continue
+                    if pend_desc and rng.random() < 0.18:
+                        # a block that contains a transaction which is pending right now -- valid, or failing a rule in state (the pending
+                        # pool must be as it was after a rejection), delivered on the head
+                        head_abs = [a for a in rt.stored if w3.by_abs[a].hash() == run_.node.chain().current_chain_hash]
+                        live = [(ctx_, t_) for (ctx_, t_, base_) in pend_desc if ctx_ in run_.node.pool() and head_abs and base_ == head_abs[0]]
+                        if live:
+                            ctx_, t_ = rng.choice(live)
+                            force = rng.choice(["", "reward+1", "reward+5", "ts_equal", "badtarget"])
+                            res, m = rt.step(force=force, parent=head_abs[0], include=[t_])
+                            lab.append(["block_with_pending_tx", force or "valid", res])
+                            continue
                     if act < 0.55 or pid == "C09" and act < 0.8:
                         res, m = rt.step()
                         lab.append(["block", m, res])
@@ -319,6 +331,8 @@ def run(pid, tier, replay=None):
                             run_.deliver_tx(rng.choice(openp), ctx, label=mname or "valid")
                             lab.append(["tx", mname or "valid"])
                             held.append(ctx)
+                            if not mname:
+                                pend_desc.append((ctx, t, base))
                             if rng.random() < 0.2 and [p for p in run_.peers if run_.node.is_open(p)]:
                                 run_.deliver_tx(rng.choice([p for p in run_.peers if run_.node.is_open(p)]), ctx, label="dup")
                 if run_.events:
